@@ -80,6 +80,10 @@ def _has_raise(stmts):
     for s in stmts:
         if isinstance(s, ast.Raise):
             return True
+        if isinstance(s, ast.With) and _has_raise(s.body):
+            return True
+        if isinstance(s, ast.If) and s.orelse and _has_raise(s.body) and _has_raise(s.orelse):
+            return True
     return False
 
 
@@ -1164,6 +1168,19 @@ def _dynamic_table():
     return res
 
 
+def _load_corpus():
+    import glob
+    from ekw.core import CORPUS_DIR
+    out = []
+    for f in sorted(glob.glob(str(CORPUS_DIR / "C05_*.json"))):
+        try:
+            d = json.load(open(f))
+            out += d["cases"] if "cases" in d else [d["case"]]
+        except Exception:
+            continue
+    return out
+
+
 def _inprocess(ctx, use_model=True):
     from ekw.core import lean_drive
     rng = ctx.rng
@@ -1189,8 +1206,10 @@ def _inprocess(ctx, use_model=True):
             lambda m: {"rows": m["rows"], "none_raises": m["none_raises"]})
         ctx.count("translator:rows", 3)
 
+    corpus = _load_corpus()
+    ctx.count("corpus:entries", len(corpus))
     # (ii.a) healthcheck, every combination
-    for st in health_cases():
+    for st in [c["health"] for c in corpus if "health" in c] + health_cases():
         out = real_health(st)
         dead = any(h == "ns" or h["exit"] is not None for _, h in st["workers"]) or st["shm"] is not None or st["data"] is not None
         ctx.case({"health": st}, nontrivial=dead)
@@ -1202,8 +1221,7 @@ def _inprocess(ctx, use_model=True):
         add("healthcheck", {"health": st}, dict(st, op="health"), {"raises": out["raises"]}, lambda m: {"raises": m["raises"]})
 
     # (ii.b) terminate
-    for _ in range(ctx.budget(150, 3000)):
-        st = gen_state(rng, healthy_bias=0.2)
+    for st in [c["terminate"] for c in corpus if "terminate" in c] + [gen_state(rng, healthy_bias=0.2) for _ in range(ctx.budget(150, 3000))]:
         out = real_terminate(st)
         ctx.case({"terminate": st}, nontrivial=not st["terminating"])
         ctx.count("terminate:cases")
@@ -1217,9 +1235,11 @@ def _inprocess(ctx, use_model=True):
             lambda m: {"acts": m["acts"], "acts2": m["acts2"], "hang": False, "crash": None})
 
     # (ii.c) recv_loop iteration
+    ticks = [(c["tick"], c["inbox"]) for c in corpus if "tick" in c]
     for _ in range(ctx.budget(400, 8000)):
         st = gen_state(rng)
-        inbox = gen_inbox(rng, st)
+        ticks.append((st, gen_inbox(rng, st)))
+    for st, inbox in ticks:
         out = real_tick(st, inbox)
         dead = any(h == "ns" or h["exit"] is not None for _, h in st["workers"]) or st["shm"] is not None or st["data"] is not None
         ctx.case({"tick": st, "inbox": inbox}, nontrivial=dead or any(m[0] in ("tf", "xf", "other", "shutdown") for m in inbox))
@@ -1250,9 +1270,11 @@ def _inprocess(ctx, use_model=True):
         add("execute_sequence", {"worker": case}, worker_model_line(case), out, lambda m: {"msgs": m["msgs"], "exit": m["exit"]})
 
     # (ii.e) Bridge.recv_events
+    recvs = [(c["hosts"], c["recv"]) for c in corpus if "recv" in c]
     for _ in range(ctx.budget(300, 6000)):
         hosts = ["h0", "h1"][: rng.randint(1, 2)]
-        batches = gen_batches(rng, hosts)
+        recvs.append((hosts, gen_batches(rng, hosts)))
+    for hosts, batches in recvs:
         out, fail_consumed = real_recv(hosts, batches)
         ctx.case({"recv": batches, "hosts": hosts}, nontrivial=any(m[0] in ("tf", "ef", "xf", "exit", "unsup") for b in batches for m in b))
         ctx.count("recv:cases")
@@ -1264,7 +1286,7 @@ def _inprocess(ctx, use_model=True):
         add("Bridge.recv_events", {"recv": batches, "hosts": hosts}, {"op": "recv", "hosts": hosts, "batches": batches}, out, lambda m: m)
 
     # (ii.f) impl.run on a simulated cluster
-    for case in gen_run_cases(rng, ctx.budget(60, 800)):
+    for case in [c["run_sim"] for c in corpus if "run_sim" in c] + gen_run_cases(rng, ctx.budget(60, 800)):
         try:
             res, batches, hosts = real_run_sim(case)
         except Exception as ex:
